@@ -5,13 +5,13 @@ import ast
 from typing import Dict, List, Optional, Tuple
 
 from .. import AnalysisError
-from ..astutil import call_chain, const_true, walk_no_lambda
+from ..astutil import returned_values, call_chain, const_true, walk_no_lambda
 from ..calls import arg_for
 from ..core import Ctx, Report
 from ..framing import families, Family
 from ..model import NotConst, norm, node_src
 from ..reference import conforming_modbus, conforming_aa55
-from ..symx import Sym, Lin, Fact, contradicts, term_str
+from ..symx import Sym, Lin, Fact, contradicts, joint_contradiction, term_str
 from .c01 import validator_paths, vparam_term, data_param, accepting
 
 PID = "C02"
@@ -67,7 +67,7 @@ def check(ctx: Ctx, rep: Report):
                 if fkey in seen:
                     continue
                 seen.add(fkey)
-                hit = next((f for f in r.facts if contradicts(A, f)), None)
+                hit = joint_contradiction(A, r.facts)
                 what = "return False" if p.end == "return" else "raise %s" % prog.exc_name(p.end_data)
                 key = "%s:%s:%s:%s" % (fam.validator.short, kind, what, "|".join(repr(f) for f in r.facts)[-140:])
                 if hit is not None:
@@ -198,8 +198,8 @@ def r3(ctx: Ctx, rep: Report, fams: Dict[str, Family]):
     rd, sk = pr.methods.get("response_data"), pr.methods.get("seek")
     if rd is None or sk is None:
         raise AnalysisError("ProtocolResponse.response_data/seek missing")
-    ok_rd = any(isinstance(n, ast.Return) and isinstance(n.value, ast.Call) and (call_chain(n.value) or ())[-1:] == ("trim_response",)
-                and len(n.value.args) == 1 and norm(n.value.args[0]) == "self.raw_data" for n in ast.walk(rd.node))
+    ok_rd = any(isinstance(v, ast.Call) and (call_chain(v) or ())[-1:] == ("trim_response",)
+                and len(v.args) == 1 and norm(v.args[0]) == "self.raw_data" for v in returned_values(rd.node))
     rep.check(ok_rd, "C02.R3", "response_data", rd.loc(), "response_data() is command.trim_response(raw_data)",
               bad="ProtocolResponse.response_data no longer returns command.trim_response(self.raw_data)")
     ok_sk = any(isinstance(n, ast.Call) and (call_chain(n) or ())[-1:] == ("seek",) and n.args and isinstance(n.args[0], ast.Call)
